@@ -506,6 +506,19 @@ func (fg *FuncGen) call(v *ssa.Call, c *ssa.CallCommon, instr ssa.Instruction) {
 			fg.assume("(" + rel + " " + strings.Join(ts, " ") + ")")
 		}
 	}
+	if fg.linear && fg.g.IsRepoFunc(callee) {
+		for i, a := range c.Args {
+			if i < len(args) && isNodeType(a.Type()) {
+				fg.pendSet(args[i], false) // handed over to the callee, which accounts for it in what it returns
+			}
+		}
+		res := callee.Signature.Results()
+		for i := 0; i < res.Len() && i < len(rs); i++ {
+			if isNodeType(res.At(i).Type()) {
+				fg.pendSet(rs[i], true)
+			}
+		}
+	}
 	fg.setCallResults(v, rs)
 	fg.recordLog(v, rs)
 	for _, cb := range backs {
